@@ -63,24 +63,46 @@ def unpersisted_by_prefix(ticks: list[dict]) -> list[bool]:
     return [any(a > k and e <= k for a, e in emit) for k in range(1, n + 1)]
 
 
+def total_work(c: dict) -> float:
+    """Upper bound on the virtual seconds any one process life of the program spends in step bodies: every sleep of every step
+    invocation that can happen in one life, laid end to end (each attempt number of a job runs at most once per life; a step
+    that was in progress at the crash is re-run from its start as the same attempt).  The run's critical path is a chain of
+    such sleeps, so a life whose timeout exceeds this bound (plus the human's answer latency) cannot be ended by the timeout."""
+    return float(sum(j["d"] * c["attempts"] for j in c["jobs"]) + (c.get("anon") or 0) * (c.get("anon_d") or 0) + (c.get("gather_post") or 0) + (c.get("ask_post") or 0))
+
+
+def _horizon(c: dict) -> float:
+    """How long the harness waits for a terminal status: far beyond the program's work and, with a run timeout, far beyond a full
+    fresh timeout counted from any restart."""
+    work = sum(j["d"] * c["attempts"] for i, j in enumerate(c["jobs"]) if not (c.get("tmo") == "stuck_job" and i == c.get("stuck_idx")))
+    return 60.0 + 6 * work + 3 * (c.get("wf_timeout") or 0.0)
+
+
 class C13(Prop):
     id = "C13"
     level = "fault_enumeration"
     rule = (
         "cases = a deterministic workflow (1-4 jobs fanned out with ctx.send_event and/or a returned event to a retrying worker step "
         "with num_workers 1..3, idempotent state writes, a collect_events gatherer, a final step returning the StopEvent; in some cases one job "
-        "exhausts its retries so the run ends failed, or the run is cancelled through the service at a generated instant; in one case of three the final step waits for one or two human answers in sequence, given by a harness task that outlives the processes and re-sends what the step bodies still wait for) served by the "
+        "exhausts its retries so the run ends failed, or the run is cancelled through the service at a generated instant; in about half of the cases the "
+        "workflow has a run timeout (Workflow(timeout=T)): either the uninterrupted run ends BY it (one job's step body sleeps just past T or practically for "
+        "ever, or the final step waits for a human answer that never comes; a generated cancel request may still end it first) or T lies just above the work any one process life can need, so the run ends just "
+        "before it; in one case of three the final step waits for one or two human answers in sequence, given by a harness task that outlives the processes and re-sends what the step bodies still wait for) served by the "
         "real WorkflowServer runtime chain over a MemoryWorkflowStore or SqliteWorkflowStore. The uninterrupted run gives the expected "
         "result and its persisted tick count K. Then for EVERY k in 1..K the run is repeated with a store that freezes after the k-th "
         "persisted tick; at that moment every task of the process is killed, all in-memory objects are dropped, a new server with a new "
         "workflow instance is booted over the same store, and its start-up resume runs. Oracle at the virtual horizon: if the persisted "
         "prefix already ends the run, the handler is finalised with the matching status/result and no step body runs again; otherwise the "
-        "handler is 'completed' with the uninterrupted result (still 'running' = lost work). Non-trivial = a crash point strictly inside "
+        "handler is 'completed' with the uninterrupted result (still 'running' = lost work). For a run that only its timeout can end, start-up resume re-enters "
+        "the control loop, which arms the run timeout afresh and in full from the restart, so the restarted run may end later than the uninterrupted one but must "
+        "end the same way: 'failed' with a timed-out error; still 'running' once virtual time is far beyond restart + T (the harness waits 60 s + 3T + six times the "
+        "other work) is the violation resumed_run_never_timed_out; ending 'completed'/'cancelled' (resumed_run_not_ended_by_timeout) or failed for another reason (resumed_run_failed_not_by_timeout) are violations of their own kinds. Non-trivial = a crash point strictly inside "
         "the run at which the engine held work that exists only in memory (un-executed commands of the last tick, buffered or mailbox ticks)."
     )
     assumptions = [
         "a process stop = cancellation of every task of that server at one virtual instant, nothing flushed; the store object (memory) or file (SQLite) is what survives",
-        "retry delays and waiter timeouts are 0/absent in this family (timers across restarts are property C14)",
+        "retry delays and waiter timeouts are 0/absent in this family (timers across restarts are property C14); the only timer is the workflow's run timeout, whose re-arming at start-up resume is what the by-timeout cases observe (when the restarted run times out is not compared, only that it does)",
+        "for the ends-before-its-timeout cases T = (sum of every sleep one process life can execute, each retry attempt once) + 2 s per human answer + 0.25..3.25 s, so no life, restarted or not, is entitled to time out; T is never a multiple of 0.5 s, so it cannot tie with a step finishing or with a poll of the human",
         "the crash point is the return of the k-th append_tick, i.e. after the tick is durable and before its commands run",
         "the SQLite store's tick-replay page size (module constant _TICK_PAGE_SIZE = 100) is set by the harness to a generated small value in some cases, so that page boundaries fall inside the short histories; the paging code itself is the repository's",
     ]
@@ -104,17 +126,51 @@ class C13(Prop):
                 # one job fails on every attempt: the run ends with a step failure after exhausting the retry budget
                 c["jobs"] = [dict(j) for j in c["jobs"]]
                 c["jobs"][p[4] % len(c["jobs"])]["fail"] = c["attempts"]
+            # ---- the workflow's own run timeout (Workflow(timeout=T)); T is never a multiple of 0.5 so it cannot tie with a step
+            # finishing (integer sleeps) or with the human's half-second polls
+            tmo, t_pick, past = p[6]
+            hitl = bool(c.get("wait") or c.get("pre_wait"))
+            c["tmo"] = None
+            if tmo == "ends_by_timeout":
+                if c["end_mode"] != "cancel":
+                    # (a cancel request may still come first, at its generated instant: then the log ends with the cancel tick, and
+                    # every restart inside the run - the request died with the process - is again a run only its timeout can end)
+                    c["end_mode"] = "stop"
+                c["jobs"] = [dict(j) for j in c["jobs"]]
+                for j in c["jobs"]:
+                    j["fail"] = min(j["fail"], c["attempts"] - 1)
+                if hitl and p[4] % 2 == 0:
+                    # the final step waits for a human answer that never comes; the timeout is long enough for all the other work
+                    c["tmo"] = "no_reply"
+                    c["wf_timeout"] = total_work(c) + [1.25, 2.25, 4.25, 7.25][t_pick]
+                else:
+                    # one job's step body sleeps past the timeout (just past it, or practically for ever)
+                    c["tmo"] = "stuck_job"
+                    c["wf_timeout"] = [1.25, 2.25, 4.25, 7.25][t_pick]
+                    c["stuck_idx"] = (p[4] // 2) % len(c["jobs"])
+                    c["jobs"][c["stuck_idx"]]["d"] = (int(c["wf_timeout"]) + 1) if past == "just_past" else 1000
+            elif tmo == "ends_before_timeout":
+                # every life of this program (the uninterrupted one and any restarted one) needs at most total_work(c) virtual seconds:
+                # the timeout is just above that, so neither may end by it
+                c["tmo"] = "before"
+                c["wf_timeout"] = total_work(c) + (2.0 * (bool(c.get("wait")) + bool(c.get("pre_wait")))) + [0.25, 0.25, 1.25, 3.25][t_pick]
             return c
 
         return st.tuples(
             st.one_of(srv.det_strategy(timers=False, hitl=False), srv.det_strategy(timers=False, hitl=False), srv.det_strategy(timers=False, hitl=True)),
             st.sampled_from(["memory", "memory", "sqlite"]),
-            st.sampled_from(["stop", "stop", "stop", "fail", "cancel"]),
+            st.sampled_from(["stop", "stop", "stop", "fail", "cancel", "cancel"]),
             st.sampled_from([0.5, 1.5, 2.5, 3.5, 5.5]),
             st.integers(0, 3),
             # page size of the SQLite store's tick replay (the module constant _TICK_PAGE_SIZE, 100 in the repository): small values
             # put page boundaries (exact multiples included) inside these 10-70 tick histories
             st.sampled_from([None, 2, 3, 5, 8]),
+            # run-timeout dimension: none / the uninterrupted run ends BY the timeout / it ends just BEFORE the timeout
+            st.tuples(
+                st.sampled_from([None, None, None, "ends_by_timeout", "ends_by_timeout", "ends_by_timeout", "ends_before_timeout"]),
+                st.integers(0, 3),
+                st.sampled_from(["just_past", "never"]),
+            ),
         ).map(mk)
 
     # one life-1 run up to an optional crash point; returns info
@@ -122,7 +178,7 @@ class C13(Prop):
         ge = genwf.M()["ge"]
         real = srv.make_store(store_kind, tmpdir)
         proxy = srv.StoreProxy(real, crash_after_tick=crash_after)
-        if case.get("wait") or case.get("pre_wait"):
+        if (case.get("wait") or case.get("pre_wait")) and case.get("tmo") != "no_reply":
             # the human: created before the first life so that it is not part of any process; answers what the workflow is (still)
             # waiting for, as told by the step bodies themselves, once per half second through whichever server life is up
             cur = log.setdefault("_cur", {})
@@ -189,7 +245,10 @@ class C13(Prop):
         r = CaseResult()
         end_mode = case.get("end_mode", "stop")
         expected = srv.expected_result(case, "k" if case.get("wait") else None)
-        horizon = 60.0 + 6 * sum(j["d"] * case["attempts"] for j in case["jobs"])
+        horizon = _horizon(case)
+        tmo = case.get("tmo")
+        T = case.get("wf_timeout")
+        by_timeout = tmo in ("stuck_job", "no_reply")  # the uninterrupted run is ended by the workflow's run timeout
         stats = {"prefixes": 0, "inside": 0, "unpersisted": 0, "finalised": 0, "idle_marked": 0, "clean": 0}
         out = {"K": 0}
 
@@ -200,10 +259,15 @@ class C13(Prop):
             genwf.CUR = rec
             tmp = srv.tmp_root() if store_kind == "sqlite" else None
             try:
+                t0 = VClock.t
                 real, proxy, life, hd = await self._first_life(case, store_kind, tmp, None, log, rec)
                 row = await srv.wait_terminal(proxy, "h1", horizon)
                 out["ref_status"] = row.status if row else None
                 out["ref_result"] = srv.result_of(row)
+                out["ref_error"] = row.error if row else None
+                ends = [t for (t, _rid, stt) in proxy.status_writes if stt == (row.status if row else None)]
+                out["ref_dur"] = (ends[-1] - t0) if ends else None
+                out["ref_waiting"] = bool(log.get("wait_at") or log.get("pre_asked"))
                 out["K"] = proxy.n_ticks
                 ticks = await real.get_ticks(hd.run_id)
                 out["tick_types"] = [t.tick_data.get("type") for t in ticks]
@@ -242,10 +306,12 @@ class C13(Prop):
                 # ---- second life over the same store
                 rec2 = genwf.Rec({"ties": case["ties"], "ext": []})
                 genwf.CUR = rec2
+                res["t_restart"] = VClock.t
                 life2 = await srv.start_life(real, srv.det_factory(case, log))
                 if "_cur" in log:
                     log["_cur"]["life"] = life2
                 row = await srv.wait_terminal(real, "h1", horizon)
+                res["waited"] = VClock.t - res["t_restart"]
                 res["status"] = row.status if row else None
                 res["result"] = srv.result_of(row)
                 res["error"] = row.error if row else None
@@ -262,14 +328,19 @@ class C13(Prop):
         except Runaway as e:
             raise RuntimeError(f"inconclusive reference: {e}") from None
         ref_status = out.get("ref_status")
-        if end_mode == "fail":
+        if by_timeout:
+            # the stuck step / the unanswered wait never ends: the only way out is the run timeout, as the log's last tick
+            ok_ref = ref_status == "failed" and (out.get("tick_types") or [None])[-1] == "timeout" and "timed out" in str(out.get("ref_error"))
+            if end_mode == "cancel" and ref_status == "cancelled" and (out.get("tick_types") or [None])[-1] == "cancel_run":
+                ok_ref = True  # cancelled before the timeout was due
+        elif end_mode == "fail":
             ok_ref = ref_status == "failed"
         elif end_mode == "cancel":
             ok_ref = ref_status in ("cancelled", "completed")  # the run may finish before the cancel instant
         else:
             ok_ref = ref_status == "completed"
         if not ok_ref or (ref_status == "completed" and srv.canon(out.get("ref_result")) != srv.canon(expected)):
-            r.v("uninterrupted_run_wrong", status=ref_status, end_mode=end_mode, result=srv.canon(out.get("ref_result"))[:120])
+            r.v("uninterrupted_run_wrong", status=ref_status, end_mode=end_mode, run_timeout=tmo, error=str(out.get("ref_error"))[:80], result=srv.canon(out.get("ref_result"))[:120])
             return r
         K = out["K"]
         if K > MAX_TICKS:
@@ -301,6 +372,8 @@ class C13(Prop):
             if not unpersisted and not res.get("idle_marked"):
                 stats["clean"] += 1
             attrs = dict(last_tick=last, unpersisted_work_at_crash=unpersisted, marked_idle_at_crash=bool(res.get("idle_marked")), store=store_kind, end_mode=end_mode)
+            if tmo:
+                attrs["run_timeout"] = tmo
             if res.get("no_crash"):
                 r.v("crash_point_not_reached", k=k, K=K)
                 continue
@@ -310,6 +383,21 @@ class C13(Prop):
                     r.v("ended_run_not_finalised", status=res["status"], want=ref_status, **attrs)
                 if res["reentered"]:
                     r.v("ended_run_reexecuted_steps", n=res["reentered"], **attrs)
+                continue
+            if by_timeout:
+                # interior crash point of a run that nothing but its timeout can end: start-up resume re-enters the control loop
+                # (workflow.run(ctx=...) -> _ControlLoopRunner.run), which arms the run timeout afresh, in full, from that moment.
+                # So the restarted run may end LATER than the uninterrupted one (up to restart + T), but it must end, and like the
+                # uninterrupted run: failed by the timeout.  (Work lost at the crash cannot change that: the run is stuck anyway.)
+                stats["by_timeout_inside"] = stats.get("by_timeout_inside", 0) + 1
+                tattrs = dict(attrs, wf_timeout=T, waited_after_restart=res.get("waited"))
+                if res["status"] == "running":
+                    r.v("resumed_run_never_timed_out", **tattrs)
+                elif res["status"] != "failed":
+                    # (own kind: work lost at the crash - the known finding on resumed_run_wrong_status - cannot make a stuck run end otherwise)
+                    r.v("resumed_run_not_ended_by_timeout", status=res["status"], want="failed", error=str(res.get("error"))[:80], **tattrs)
+                elif "timed out" not in str(res.get("error")):
+                    r.v("resumed_run_failed_not_by_timeout", error=str(res.get("error"))[:80], **tattrs)
                 continue
             # interior crash point: a failing workflow fails again; a run whose cancel request died with the process simply completes
             want_inside = "failed" if end_mode == "fail" else "completed"
@@ -327,6 +415,18 @@ class C13(Prop):
             if K and K % page == 0:
                 r.classes.append("history_exact_multiple_of_page")
         r.classes.append("end_" + end_mode + "_" + str(ref_status))
+        if by_timeout:
+            if ref_status == "cancelled":
+                r.classes.append("run_stuck_until_its_timeout_but_cancelled_first")
+            else:
+                r.classes.append("run_ends_by_timeout")
+                r.classes.append("run_ends_by_timeout_" + ("waiting_for_event_that_never_comes" if tmo == "no_reply" and out.get("ref_waiting") else "step_sleeping_past_it"))
+            if stats.get("by_timeout_inside"):
+                r.classes.append("restart_inside_run_that_ends_by_timeout")
+        elif tmo == "before":
+            r.classes.append("run_ends_before_its_timeout")
+            if out.get("ref_dur") is not None and T - out["ref_dur"] <= 1.5:
+                r.classes.append("run_ends_within_1.5s_of_its_timeout")
         if stats["unpersisted"]:
             r.classes.append("crash_with_unpersisted_work")
         if stats["idle_marked"]:
